@@ -37,6 +37,7 @@ ODT_FEATURES = {
     "nested-list": "a text:list inside a text:list-item (twin: flat list)",
     "nested-table": "table inside a table cell (twin: sequential tables)",
     "textbox-two-paras": "text box with two paragraphs anchored in an empty paragraph (twin: one paragraph)",
+    "textbox-in-text": "a text box anchored as character in the middle of a paragraph, text before and directly after the frame (twin: the trailing text in a paragraph of its own)",
     "header-rows": "first row inside table:table-header-rows (twin: plain row)",
     "space-count": "text:s text:c=3 between two tokens (twin: one plain space)",
     "heading-in-list": "text:h inside a list item (twin: text:p)",
@@ -49,6 +50,8 @@ ODP_FEATURES = {
     "notes-only-slide": "slide whose only text is in speaker notes (twin: no notes)",
     "table-header-rows": "table with table:table-header-rows (twin: plain rows)",
     "text-outside-frame": "text in draw:custom-shape instead of draw:frame (twin: draw:frame text box)",
+    "two-line-title": "a title text box with two paragraphs in the title style (twin: second paragraph in the body style)",
+    "linked-image": "a picture frame linking ../Pictures/x outside the package while Pictures/x is an embedded part (twin: no such frame)",
 }
 ODS_FEATURES = {
     "no-meta": "package without the optional meta.xml (twin: present)",
@@ -257,6 +260,13 @@ def build_odt(seed: int, feature: str | None = None, twin: bool = False):
                     exp.tables.append({"grid": g})
                     body.append(xml)
                     body.append(para())
+            elif feature == "textbox-in-text":
+                # a frame anchored in the middle of a paragraph's text: lead text, box paragraph(s), trailing text - compact XML
+                lead, tail = w("b", 1, 1)[0], None
+                box = "".join(f"<text:p>{' '.join(w('x', 1, 2))}</text:p>" for _ in range(2))
+                tail = w("b", 1, 1)[0]
+                fr = f'<draw:frame draw:name="Frame" text:anchor-type="as-char" svg:width="3cm" svg:height="1cm"><draw:text-box>{box}</draw:text-box></draw:frame>'
+                body.append(f'<text:p text:style-name="Standard">{lead} {fr}{tail}</text:p>' if not twin else f'<text:p text:style-name="Standard">{lead} {fr}</text:p><text:p text:style-name="Standard">{tail}</text:p>')
             elif feature == "textbox-two-paras":
                 body.append(textbox(two=not twin))
             elif feature == "header-rows":
@@ -327,18 +337,26 @@ def build_odp(seed: int, feature: str | None = None, twin: bool = False):
 
         if not empty:
             # documented order inside a slide: title, body paragraphs, other paragraphs -> generate in that order
-            if rng.random() < 0.8:
+            if feature == "two-line-title" and s == feature_slide:
+                # a title of two paragraphs, both in the title style (twin: the second line in the body style)
+                a = " ".join(w("h", 1, 2, True))
+                b2 = " ".join(w("h" if not twin else "b", 1, 2, not twin))
+                frames.append(frame(f'<text:p text:style-name="TitleText">{a}</text:p><text:p text:style-name="{"TitleText" if not twin else "BodyText"}">{b2}</text:p>', "title"))
+            elif rng.random() < 0.8:
                 frames.append(frame(f'<text:p text:style-name="TitleText">{" ".join(w("h", 1, 2, True))}</text:p>', "title"))
-            for _ in range(rng.randint(0, 2)):
+            # (the reader groups a slide's text as title, body, other: on the two-line-title slide nothing else is written, so
+            #  that grouping cannot reorder anything and only presence / attribution of the second line is judged)
+            only_title = feature == "two-line-title" and s == feature_slide
+            for _ in range(0 if only_title else rng.randint(0, 2)):
                 ps = "".join(f'<text:p text:style-name="BodyText">{" ".join(w("b"))} <text:span>{" ".join(w("b", 1, 1))}</text:span></text:p>' for _ in range(rng.randint(1, 3)))
                 frames.append(frame(ps, "outline"))
-            for _ in range(rng.randint(0, 2)):
+            for _ in range(0 if only_title else rng.randint(0, 2)):
                 if rng.random() < 0.5:
                     frames.append(frame(f'<text:p text:style-name="P9">{" ".join(w("x", 1, 2))}</text:p>'))
                 else:
                     items = "".join(f'<text:list-item><text:p text:style-name="P9">{" ".join(w("l", 1, 2))}</text:p></text:list-item>' for _ in range(rng.randint(1, 3)))
                     frames.append(frame(f"<text:list>{items}</text:list>"))
-            if rng.random() < 0.3 or (feature == "table-header-rows" and s == feature_slide):
+            if (rng.random() < 0.3 and not only_title) or (feature == "table-header-rows" and s == feature_slide):
                 rows, cols = rng.randint(2, 3), rng.randint(1, 3)
                 grid, trs = [], []
                 for i in range(rows):
@@ -363,6 +381,17 @@ def build_odp(seed: int, feature: str | None = None, twin: bool = False):
             if rng.random() < 0.2:
                 m = exp.out(tk.new("m"))
                 frames.append(f'<office:annotation><dc:creator>rev</dc:creator><dc:date>2024-01-01T00:00:00</dc:date><text:p>{m}</text:p></office:annotation>')
+        if feature == "linked-image" and s == feature_slide:
+            # a picture frame that LINKS a file outside the package (parent-relative href) while the package holds a part with the
+            # same trailing path: the linked file is not part of the document (twin: no such frame)
+            if not any(k.startswith("Pictures/") for k in files):
+                n_img += 1
+                y += 2
+                fx, _ = _frame_image(rng, files, exp, n_img, s + 1, y=f"{y}cm")
+                frames.append(fx)
+            inner = sorted(k for k in files if k.startswith("Pictures/"))[0]
+            if not twin:
+                frames.append(f'<draw:frame draw:name="Linked" svg:x="5cm" svg:y="15cm" svg:width="2cm" svg:height="2cm"><draw:image xlink:href="../{inner}" xlink:type="simple"/></draw:frame>')
         if feature == "text-outside-frame" and s == feature_slide:
             t = " ".join(w("x", 1, 2))
             if twin:
